@@ -27,7 +27,8 @@ def main():
     ids = args or sorted(d for d in os.listdir(os.path.join(VERIF, "seeded")) if os.path.isdir(os.path.join(VERIF, "seeded", d)))
     manifest = json.load(open(os.path.join(VERIF, "MANIFEST.json")))
     claimed = [c["property_id"] for c in manifest["checks"]]
-    results = {}
+    rpath = os.path.join(VERIF, "seeded", "RESULTS.json")
+    results = json.load(open(rpath)) if os.path.exists(rpath) and args else {}
     for sid in ids:
         d = os.path.join(VERIF, "seeded", sid)
         meta = json.load(open(os.path.join(d, "meta.json")))
@@ -43,7 +44,19 @@ def main():
                 rr = sh(["python3", os.path.join(HERE, "check.py"), "--property", p, "--tier", "quick"], cwd=VERIF)
                 out = rr.stdout.decode()
                 vio = [l for l in out.split("\n") if l.startswith("VIOLATION")]
-                res[p] = {"exit": rr.returncode, "violation": vio[0] if vio else None}
+                how = None
+                if vio:
+                    how = "correspondence-or-proof-broken" if vio[0].rstrip().endswith("no-failing-input-found") else "failing-input"
+                    try:
+                        rp = json.load(open(vio[0].split("replay=")[1].split()[0]))
+                        if how != "failing-input":
+                            how += ": " + ",".join(c["family"] for c in rp.get("correspondence_that_no_longer_checks") or []) + \
+                                (" theorem " + str(rp["theorem_or_lemma_that_no_longer_checks"]) if rp.get("theorem_or_lemma_that_no_longer_checks") else "")
+                        else:
+                            how += " (%d failing points%s)" % (rp.get("count", 0), "" if rp.get("corr_ok") else "; correspondence also broken")
+                    except Exception as e:  # noqa
+                        how += " (replay unreadable: %s)" % e
+                res[p] = {"exit": rr.returncode, "violation": vio[0] if vio else None, "how": how}
             results[sid] = {"property": meta["property"], "checks": res,
                             "detected": any(v["exit"] == 1 and v["violation"] for v in res.values()),
                             "detected_by_own_property": bool(res.get(meta["property"], {}).get("violation"))}
@@ -51,7 +64,7 @@ def main():
             sh(["git", "-C", REPO, "checkout", "--", "."])
             assert clean()
         print(sid, json.dumps(results[sid]))
-    json.dump(results, open(os.path.join(VERIF, "seeded", "RESULTS.json"), "w"), indent=1, sort_keys=True)
+        json.dump(results, open(rpath, "w"), indent=1, sort_keys=True)
 
 
 if __name__ == "__main__":
